@@ -298,3 +298,35 @@ Print Assumptions view_of_wrapper_reach.
 Print Assumptions resolve_wrap_elems_reach.
 Print Assumptions resolve_wrap_defined_reach.
 Print Assumptions reset_from_own_range_witness.
+
+(* ------------------------------------------------------------ a fill value passed by reference to an element *)
+Lemma elem_ref_of_elems st j idx e v :
+  elems st j = Some e -> nth_error e idx = Some (RVal v) -> elem_ref st j idx = Some v.
+Proof.
+  unfold elems, observe_slot, elem_ref. destruct (slot_arr st (slot_at st j)) as [a|]; [|discriminate].
+  cbn [option_map o_elems]. intro H. injection H as <-. intro Hn.
+  assert (L : idx < a_len a).
+  { rewrite <- (iter_length (heap st) a). apply nth_error_Some. congruence. }
+  rewrite iter_nth in Hn by exact L. injection Hn as Hn.
+  apply Nat.ltb_lt in L. rewrite L, Hn. reflexivity.
+Qed.
+
+(* w_i.resize(n, w_j[idx]) — j = i included — fills with the value the element had BEFORE the call *)
+Theorem resize_ref_lemma : forall st i a vb n j idx e v st1, WF st ->
+  slot_at st i = SOwned a vb -> elems st j = Some e -> nth_error e idx = Some (RVal v) ->
+  step_new st (ResizeRef i n j idx) = Some st1 ->
+  elems st1 i = Some (map RVal (firstn n (vec_cells st vb) ++ repeat v (n - length (vec_cells st vb)))).
+Proof.
+  intros st i a vb n j idx e v st1 W Hs He Hn H.
+  pose proof (elem_ref_of_elems _ _ _ _ _ He Hn) as E.
+  unfold step_new in H. rewrite (resize_ref_is_resize _ _ _ _ _ _ E) in H.
+  destruct (resize_tracks_lemma st i a vb n v st1 W Hs H) as [a' [vb' [S1 [_ [_ I]]]]].
+  unfold elems, observe_slot. rewrite S1. cbn [slot_arr option_map o_elems]. rewrite I. reflexivity.
+Qed.
+
+Theorem resize_ref_reach : forall st i a vb n j idx e v st1, reachable st ->
+  slot_at st i = SOwned a vb -> elems st j = Some e -> nth_error e idx = Some (RVal v) ->
+  step_new st (ResizeRef i n j idx) = Some st1 ->
+  elems st1 i = Some (map RVal (firstn n (vec_cells st vb) ++ repeat v (n - length (vec_cells st vb)))).
+Proof. intros st i a vb n j idx e v st1 R. apply resize_ref_lemma. apply reach_wf; exact R. Qed.
+Print Assumptions resize_ref_reach.
